@@ -64,6 +64,127 @@ static void print_all(void)
 
 static unsigned char evbuf[MAXLINE / 2];
 
+/* ---- T lines: the same events fed to the REAL select loop client_tunnel() through the wrapped select() -------
+ * T <same header as J> ; events…     U/D/A/O as for J lines, plus
+ *   B now pkthex dgramhex            tun packet and datagram readable in the same iteration
+ * One select() call consumes one event.  A tun packet offered while the tun device is not in the read set is
+ * dropped and the select times out; a datagram the loop did not read in its iteration (`continue`) is dropped. */
+int client_tunnel(int tun_fd, int dns_fd);
+void client_stop(void);
+
+static char *loop_save;
+static int loop_started;
+static int loop_first;
+
+static void loop_flush(void)
+{
+	if (!loop_started)
+		return;
+	if (!loop_first)
+		printf(" ; ");
+	loop_first = 0;
+	print_all();
+}
+
+/* select() calls made inside a handler (handshake_lazyoff waiting for replies to its option queries): nothing
+   arrives, and the virtual clock stands still during one loop iteration */
+static int nested_select(int nfds, fd_set *rfds, struct timeval *tv)
+{
+	(void)nfds; (void)tv;
+	if (rfds)
+		FD_ZERO(rfds);
+	return 0;
+}
+
+static int loop_select(int nfds, fd_set *rfds, struct timeval *tv)
+{
+	char *ev, *q, *k;
+	int tun_sel = rfds && FD_ISSET(21, rfds);
+	int n, ready_tun = 0, ready_dns = 0;
+	if (nfds != 22)			/* the main loop selects on MAX(tun_fd, dns_fd) + 1 = 22 */
+		return nested_select(nfds, rfds, tv);
+	loop_flush();
+	loop_started = 1;
+	cap_reset();
+	if (rfds)
+		FD_ZERO(rfds);
+	tun_in_len = 0;
+	inj_len = 0;
+	for (;;) {
+		ev = strtok_r(NULL, ";", &loop_save);
+		if (!ev) {
+			loop_started = 0;
+			client_stop();
+			return 0;
+		}
+		q = ev;
+		k = tok(&q);
+		if (k)
+			break;
+	}
+	verif_now = atol(tok(&q));
+	if (!strcmp(k, "O")) {
+		return 0;
+	} else if (!strcmp(k, "U") || !strcmp(k, "B")) {
+		tun_in_len = unhex(tok(&q), tun_in);
+		ready_tun = tun_sel;
+		if (!strcmp(k, "B")) {
+			n = unhex(tok(&q), evbuf);
+			inj_set(evbuf, n);
+			inj_residue = 0;
+			ready_dns = 1;
+		}
+	} else if (!strcmp(k, "D")) {
+		n = unhex(tok(&q), evbuf);
+		inj_set(evbuf, n);
+		inj_residue = 0;
+		ready_dns = 1;
+	} else if (!strcmp(k, "A")) {
+		struct query sq;
+		struct cli_view v;
+		int idmode = atoi(tok(&q));
+		int firstc = atoi(tok(&q));
+		int aqtype = atoi(tok(&q));
+		int denc = atoi(tok(&q));
+		int ackmode = atoi(tok(&q));
+		n = unhex(tok(&q), evbuf);
+		/* the watchdog runs first in the loop: when it is about to stop the client no answer is built (as for J lines) */
+		cli_view(&v);
+		if (v.lastdown + 60 < verif_now)
+			return 0;
+		memset(&sq, 0, sizeof(sq));
+		snprintf(sq.name, sizeof(sq.name), "%caaaa.t.example.com", firstc);
+		sq.type = aqtype;
+		sq.id = idmode == 0 ? v.chunkid : idmode == 1 ? v.prev : idmode == 2 ? v.prev2 : idmode;
+		sq.fromlen = sizeof(struct sockaddr_in);
+		if (n >= 1 && ackmode) {
+			int fr = (v.out_fragment - (ackmode == 2 ? 1 : 0)) & 15;
+			evbuf[0] = (evbuf[0] & 0x80) | ((v.out_seqno & 7) << 4) | fr;
+		}
+		srv_write_dns(&sq, (char *)evbuf, n, (char)denc);
+		if (cap_count >= 1) {
+			static unsigned char dg[65536];
+			int dl = cap[cap_count - 1].len;
+			memcpy(dg, cap[cap_count - 1].data, dl);
+			cap_reset();
+			inj_set(dg, dl);
+			inj_residue = 0;
+			ready_dns = 1;
+		} else {
+			cap_reset();
+			return 0;
+		}
+	} else {
+		printf("BADEVENT");
+		return 0;
+	}
+	if (ready_tun && rfds)
+		FD_SET(21, rfds);
+	if (ready_dns && rfds)
+		FD_SET(20, rfds);
+	return ready_tun + ready_dns;
+}
+
 /* J uid domainhex codec maxlen qtype edns0 lazy dns selecttimeout chunkid seed now ; events…
  *   U now pkthex                     packet from tun
  *   D now dgramhex                   datagram on the DNS socket
@@ -80,9 +201,11 @@ int handle_line(char *l)
 	int uid, codec, maxlen, qtype, edns, lazy, dns, st, chunkid, seed, n, first = 1;
 	long now;
 
+	int loopmode;
 	t = tok(&p);
-	if (strcmp(t, "J"))
+	if (strcmp(t, "J") && strcmp(t, "T"))
 		return 0;
+	loopmode = !strcmp(t, "T");
 	uid = atoi(tok(&p));
 	n = unhex(tok(&p), in); memcpy(dom, in, n); dom[n] = 0;
 	codec = atoi(tok(&p));
@@ -100,6 +223,32 @@ int handle_line(char *l)
 	cli_set_edns0(edns);
 	verif_now = now;
 	cli_setup_tunnel(st, chunkid, seed, now);
+	wire_select_hook = nested_select;
+	if (loopmode) {
+		/* hand the rest of the line to the select() hook and run the real loop until the script ends */
+		char *rest;
+		loop_save = p;
+		loop_started = 0;
+		loop_first = 1;
+		wire_select_hook = loop_select;
+		client_tunnel(21, 20);
+		wire_select_hook = NULL;
+		loop_flush();
+		loop_started = 0;
+		/* events after the watchdog stopped the client: the loop has ended, nothing happens any more */
+		while ((rest = strtok_r(NULL, ";", &loop_save)) != NULL) {
+			char *q = rest;
+			if (!tok(&q))
+				continue;
+			cap_reset();
+			if (!loop_first)
+				printf(" ; ");
+			loop_first = 0;
+			print_all();
+		}
+		putchar('\n');
+		return 1;
+	}
 
 	for (ev = strtok_r(p, ";", &save); ev; ev = strtok_r(NULL, ";", &save)) {
 		char *q = ev, *k = tok(&q);
